@@ -78,7 +78,7 @@ Proof. vm_compute. split; reflexivity. Qed.
     [mh_ok E cur nxt] = step_ok_b and, on every rank, max(destination block size, p * padded block size) <= E r.
     None of the well-formedness predicates relates extents and process counts: ranks with empty blocks
     (n < p) are covered. *)
-From PGV Require Import TransposeFrame FrameMem TransposeFrameExec.
+From PGV Require Import TransposeFrame FrameMem TransposeFrameExec HandlerBuf BufExtent.
 
 (** function level, any address: beyond its block dest keeps the packed cells (own source data at the data
     positions of the p padded blocks, old contents elsewhere); the receive array (source without a spare
@@ -184,6 +184,52 @@ Theorem c01_source_intact :
   fst (fst (mh_transpose V dflt Nl nprocs d' cur steps true src dst buf)) = src.
 Proof. intros. apply transpose_m_src_same. Qed.
 Print Assumptions c01_source_intact.
+
+(** the extent of every step is inside the advertised buffer.  [pair_bufsize] is what LayoutHandler.__init__
+    computes for a compatible pair; it equals the number of cells the step packs and exchanges (p padded blocks),
+    it does not depend on the orientation of the pair, and both blocks fit; hence the extent of the step in both
+    orientations is at most handler_bufsize for every enumerated pair. *)
+Theorem c01_pair_bufsize_is_scratch :
+  forall (Nl nprocs l1 l2 : list nat) (d' : nat),
+  cfg_wf_b Nl nprocs l1 l2 d' = true -> compatible nprocs l1 l2 = true ->
+  forall r, r < nranks nprocs -> forall a0 rest, swap_axes nprocs l1 l2 = a0 :: rest ->
+  pair_bufsize Nl nprocs (unravel nprocs r) l1 l2
+  = Pf nprocs a0 * bsize d' (Nf Nl) (Pf nprocs) (pif l1) (ipif l1) (pif' l2) a0 (cfun nprocs r).
+Proof. exact pair_bufsize_eq_scratch. Qed.
+Print Assumptions c01_pair_bufsize_is_scratch.
+Theorem c01_step_within_pair :
+  forall (Nl nprocs l1 l2 : list nat) (d' : nat),
+  cfg_wf_b Nl nprocs l1 l2 d' = true -> compatible nprocs l1 l2 = true ->
+  forall r, r < nranks nprocs ->
+  mh_extent Nl nprocs d' l1 l2 r <= pair_bufsize Nl nprocs (unravel nprocs r) l1 l2 /\
+  mh_extent Nl nprocs d' l2 l1 r <= pair_bufsize Nl nprocs (unravel nprocs r) l1 l2.
+Proof. exact step_extent_le_pair. Qed.
+Print Assumptions c01_step_within_pair.
+(** routes: [route_enum_b]: every step joins two layouts the constructor paired ([hbuf r] = handler_bufsize on rank r).
+    With c01_run_route_frame(_intact) at E := hbuf: the redirects never write a cell at or beyond bufferSize. *)
+Theorem c01_route_within_buffer :
+  forall (Nl nprocs : list nat) (d' : nat) (layouts : list (list nat)) route cur,
+  route_ok_b Nl nprocs d' cur route = true -> route_enum_b nprocs layouts cur route = true ->
+  mh_route_ok Nl nprocs d' (hbuf Nl nprocs layouts) cur route = true.
+Proof. exact route_within_buffer. Qed.
+Print Assumptions c01_route_within_buffer.
+Theorem c01_route_writes_within_buffer :
+  forall (V : Type) (dflt : V) (Nl nprocs : list nat) (d' : nat) (layouts : list (list nat)) cur steps (src dst buf : mems V),
+  route_ok_b Nl nprocs d' cur steps = true -> route_enum_b nprocs layouts cur steps = true ->
+  mh_Wm V nprocs (hbuf Nl nprocs layouts) src -> mh_Wm V nprocs (hbuf Nl nprocs layouts) dst ->
+  mh_Wm V nprocs (hbuf Nl nprocs layouts) buf ->
+  (fr V dflt (hbuf Nl nprocs layouts) src (fst (mh_redirect V dflt Nl nprocs d' cur steps src dst)) /\
+   (if Nat.even (length steps)
+    then snd (mh_redirect V dflt Nl nprocs d' cur steps src dst) = fst (mh_redirect V dflt Nl nprocs d' cur steps src dst)
+    else fr V dflt (hbuf Nl nprocs layouts) dst (snd (mh_redirect V dflt Nl nprocs d' cur steps src dst)))) /\
+  (fr V dflt (hbuf Nl nprocs layouts) dst (fst (mh_redirect_intact V dflt Nl nprocs d' cur steps src dst buf)) /\
+   fr V dflt (hbuf Nl nprocs layouts) buf (snd (mh_redirect_intact V dflt Nl nprocs d' cur steps src dst buf))).
+Proof.
+  intros V dflt Nl nprocs d' layouts cur steps src dst buf Hok He Ws Wd Wb.
+  pose proof (route_within_buffer Nl nprocs d' layouts steps cur Hok He) as H.
+  split; [apply mh_redirect_frame; assumption|apply mh_redirect_intact_frame; assumption].
+Qed.
+Print Assumptions c01_route_writes_within_buffer.
 
 (** non-vacuity: shape [3;2], two processes (blocks of 1 and 2 rows), [0;1] -> [1;0], arrays of 8 cells filled with
     7 (source), 8 (dest), 9 (buf) beyond the block.  Without a buffer the source array becomes the receive
